@@ -221,14 +221,130 @@ Theorem C07_segmeta_encoding_premises_satisfiable :
 Proof. exact (conj enc_d_nl parse_enc_d). Qed.
 Print Assumptions C07_segmeta_encoding_premises_satisfiable.
 
+(* ---- the auxiliary file the start-up recovery depends on: virtualtablenames.txt.  syncSegMetaWithSegFullMeta adopts
+   the unrotated segments (a .sfm, no line in segmeta.json yet) of the indexes this file lists; the first event of a new
+   index appends its name (addVirtualTableHelper) BETWEEN completed flushes of the other indexes.  Byte level: the
+   reader is bufio.ScanLines (the unterminated last token is a name), the writer appends name + "\n" (since eb50b5f in one
+   write, preceded by "\n" when the file it finds does not end in one).
+   FULL STATEMENT: for every crash point of the writer (ANY byte prefix of what it appends, torn names included) a
+   restart reads the file without error, every name that was listed is listed, so every segment of the other indexes
+   that holds completed flushes is still adopted; a name whose registration completed is listed after any number of
+   later crashes and restarts; a process that ran to its end lists every index it flushed into. ---- *)
+From SigM Require Import NamesProto.
+From SigP Require Import NamesProtoProofs.
+
+(* the file ends in "\n" (or is empty): a crash after k bytes of name + "\n" reads as the old names, followed by nothing
+   (k = 0) or by the first k bytes of the name (the whole name from k = length on) *)
+Theorem C07_names_append_prefix_exact : forall (f n : bytes) (k : nat),
+  needs_nl f = false -> ~ In 10%N n ->
+  lines (f ++ firstn k (n ++ [10%N])) = lines f ++ (if k =? 0 then [] else [firstn k n]).
+Proof. exact names_append_prefix_exact. Qed.
+Print Assumptions C07_names_append_prefix_exact.
+
+(* ... and is never an error (mx = bufio.MaxScanTokenSize: the only error of the Scanner is a token of mx bytes or more) *)
+Theorem C07_names_never_unreadable_after_crash : forall (f n : bytes) (k mx : nat),
+  needs_nl f = false -> ~ In 10%N n -> too_long mx f = false -> length n < mx ->
+  read_scan mx (Some (f ++ firstn k (n ++ [10%N])))
+  = Some (names_of f ++ (if k =? 0 then [] else [drop_cr (firstn k n)])).
+Proof. exact names_never_unreadable. Qed.
+Print Assumptions C07_names_never_unreadable_after_crash.
+
+(* so the unrotated segments of the indexes registered earlier are adopted after a crash at ANY byte of the append *)
+Theorem C07_names_adoption_of_other_indexes_unaffected :
+  forall (f n : bytes) (k mx : nat) (segs : list (bytes * nat)) (s : bytes * nat),
+  needs_nl f = false -> ~ In 10%N n -> too_long mx f = false -> length n < mx ->
+  In s (adopt (read_scan mx (Some f)) segs) ->
+  In s (adopt (read_scan mx (Some (f ++ firstn k (n ++ [10%N])))) segs).
+Proof. exact names_adoption_unaffected. Qed.
+Print Assumptions C07_names_adoption_of_other_indexes_unaffected.
+
+(* the same for the writer of the tree on ANY file it may find, also one that a crash left without its final newline
+   (name_record true f n = the optional "\n", the name, "\n") *)
+Theorem C07_names_never_unreadable_any_file : forall (f n : bytes) (k mx : nat),
+  ~ In 10%N n -> too_long mx f = false -> length n < mx ->
+  exists ns, read_scan mx (Some (f ++ firstn k (name_record true f n))) = Some ns /\
+             forall x, In x (names_of f) -> In x ns.
+Proof. exact names_never_unreadable_any_file. Qed.
+Print Assumptions C07_names_never_unreadable_any_file.
+
+Theorem C07_names_adoption_unaffected_any_file :
+  forall (f n : bytes) (k mx : nat) (segs : list (bytes * nat)) (s : bytes * nat),
+  ~ In 10%N n -> too_long mx f = false -> length n < mx ->
+  In s (adopt (read_scan mx (Some f)) segs) ->
+  In s (adopt (read_scan mx (Some (f ++ firstn k (name_record true f n)))) segs).
+Proof. exact names_adoption_unaffected_any_file. Qed.
+Print Assumptions C07_names_adoption_unaffected_any_file.
+
+(* refuted: a reader that requires the final newline (ReadString('\n') treating a pending fragment at EOF as an error).
+   "idxa\n", crash between write("newc") and write("\n"): the segment of idxa, adopted before, is not adopted; nothing
+   is; the Scanner adopts it *)
+Theorem C07_names_newline_required_reader_refuted :
+  exists (f n : bytes) (k : nat) (segs : list (bytes * nat)) (s : bytes * nat),
+    needs_nl f = false /\ ~ In 10%N n /\ k = length n /\
+    In s (adopt (read_strict (Some f)) segs) /\
+    adopt (read_strict (Some (f ++ firstn k (n ++ [10%N])))) segs = [] /\
+    In s (adopt (read_scan (256 * 256) (Some (f ++ firstn k (n ++ [10%N])))) segs).
+Proof. exact names_newline_required_reader_refuted. Qed.
+Print Assumptions C07_names_newline_required_reader_refuted.
+
+(* generations: each process starts on what is on disk (in-memory names = names of the file), registers the indexes it
+   gets events for (a name in memory is not appended again) and dies after ANY number of appended bytes *)
+Theorem C07_names_listed_name_survives_every_generation :
+  forall (gs : list (list bytes * nat)) (file x : bytes),
+  (forall g, In g gs -> Forall name_ok (fst g)) ->
+  In x (names_of file) -> In x (names_of (names_gens true file gs)).
+Proof. exact names_gens_keep. Qed.
+Print Assumptions C07_names_listed_name_survives_every_generation.
+
+Theorem C07_names_registered_index_survives_every_generation :
+  forall (file : bytes) (regs : list bytes) (k : nat) (gs : list (list bytes * nat)) (x : bytes),
+  Forall name_ok regs -> (forall g, In g gs -> Forall name_ok (fst g)) ->
+  In x (reg_done true file (names_of file) regs k) ->
+  In x (names_of (names_gens true (gen_file true file (regs, k)) gs)).
+Proof. exact names_registered_survives. Qed.
+Print Assumptions C07_names_registered_index_survives_every_generation.
+
+(* a process that ran to its end lists every index it flushed into, whatever file it found *)
+Theorem C07_names_process_lists_every_index : forall (file : bytes) (regs : list bytes) (x : bytes),
+  Forall name_ok regs -> In x regs ->
+  In x (names_of (file ++ proc_stream true file (names_of file) regs)).
+Proof. exact names_repaired_process_lists_every_index. Qed.
+Print Assumptions C07_names_process_lists_every_index.
+
+(* the writer before eb50b5f (name and "\n" in two writes, the end of the file never looked at): the same statement
+   holds under the exact guard "the file found is empty or ends in a newline" ... *)
+Theorem C07_names_unchecked_append_guarded : forall (file : bytes) (regs : list bytes) (x : bytes),
+  needs_nl file = false -> Forall name_ok regs -> In x regs ->
+  In x (names_of (file ++ proc_stream false file (names_of file) regs)).
+Proof. exact names_process_lists_every_index_guarded. Qed.
+Print Assumptions C07_names_unchecked_append_guarded.
+
+(* ... and is refuted without it: crash between write("idxb") and write("\n") (a call boundary of that writer); the
+   restarted process has idxb in memory, gets the first event of newc, runs to its end: the file reads [idxa; idxbnewc],
+   at the next start no unrotated segment of idxb or newc is adopted; the writer of the tree lists and adopts both *)
+Theorem C07_names_unchecked_append_glued_refuted :
+  exists (file : bytes) (regs : list bytes) (segs : list (bytes * nat)),
+    Forall name_ok regs /\
+    file = [105;100;120;97;10]%N ++ firstn 4 ([105;100;120;98]%N ++ [10%N]) /\
+    names_of (file ++ proc_stream false file (names_of file) regs) = [[105;100;120;97]; [105;100;120;98;110;101;119;99]]%N /\
+    adopt (read_scan (256 * 256) (Some (file ++ proc_stream false file (names_of file) regs))) segs = [] /\
+    adopt (read_scan (256 * 256) (Some (file ++ proc_stream true file (names_of file) regs))) segs = segs.
+Proof. exact names_glued_to_unterminated_line_refuted. Qed.
+Print Assumptions C07_names_unchecked_append_glued_refuted.
+
+(* the premises are satisfiable: a name, a terminated file within the token limit *)
+Example C07_names_premises_satisfiable :
+  name_ok [105;100;120;97]%N /\ needs_nl [105;100;120;97;10]%N = false /\ too_long (256 * 256) [105;100;120;97;10]%N = false.
+Proof. split; [split; [simpl; intuition discriminate|reflexivity]|split; vm_compute; reflexivity]. Qed.
+
 (* ---- the writer's call order, from the source: on EVERY path through AppendWipToSegfile and
    checkAndRotateColFiles (skeletons regenerated from /repo on every run by gotrans in calltrace mode, callees
    inlined; every branch possible, every loop any number of times) the block summary and the segment statistics
    are written before the running .sfm, the .sfm before the persistent-query results, the star tree before the
    segmeta.json line, and the segmeta.json line before the writer drops the segment: the order of FlushProto.ops_of
    is the order of the code (rules C07.* of GenOrderCheck.co_rules). ---- *)
-From SigP Require GenOrderCheck GenOrderProofs.
+From SigP Require GenOrderCheck GenOrderC07.
 Theorem C07_code_writes_before_the_metadata_that_names_them : forall r : GenOrderCheck.rule,
   In r GenOrderCheck.c07_rules -> GenOrderCheck.rule_holds r.
-Proof. exact GenOrderProofs.co_C07_rules_hold. Qed.
+Proof. exact GenOrderC07.co_C07_rules_hold. Qed.
 Print Assumptions C07_code_writes_before_the_metadata_that_names_them.
